@@ -54,6 +54,10 @@ pub fn normalise_sig(sig: &str) -> String {
         let head: Vec<&str> = joined.split(':').take(2).collect();
         joined = format!("{}:any:cell-value-only", head.join(":"));
     }
+    if [":cf", ":link", ":col", ":row"].iter().any(|c| joined.ends_with(c)) {
+        // whether arrays live on the sheet only matters for what cells hold, not for links / CF / attributes
+        joined = joined.replace("-arrays", "");
+    }
     if joined.starts_with("c03:diverged:") && joined.contains("-failed") {
         // the diverging command is a call that returned Err after changing the primary: the defect is that
         // op's C04 finding (reported there with its op kind); here one signature per class of observable
